@@ -3,6 +3,8 @@ import Ptn.C16.Model
 about such sequences, and the tree bookkeeping. -/
 namespace Ptn.C16
 
+set_option linter.unusedSectionVars false
+
 variable {α : Type} [DecidableEq α]
 
 /-! ### sequences of `addChild` operations -/
